@@ -64,10 +64,10 @@ Shape(t) == [n |-> t.n, nt |-> t.nt, open |-> t.open, c |-> t.c,
              ch |-> [i \in 1..Len(t.ch) |-> Shape(t.ch[i])]]
 StructEq(a, b) == Shape(a) = Shape(b)
 
-RECURSIVE ReplaceAt(_, _, _)
-ReplaceAt(t, p, r) ==
+RECURSIVE TreeReplaceAt(_, _, _)
+TreeReplaceAt(t, p, r) ==
   IF p = <<>> THEN r
-  ELSE [t EXCEPT !.ch = [t.ch EXCEPT ![Head(p)] = ReplaceAt(t.ch[Head(p)], Tail(p), r)]]
+  ELSE [t EXCEPT !.ch = [t.ch EXCEPT ![Head(p)] = TreeReplaceAt(t.ch[Head(p)], Tail(p), r)]]
 
 (* post is obtained from pre by expanding open leaves only: every node of  *)
 (* pre is still there with the same label and id; closed parts unchanged.  *)
